@@ -76,6 +76,7 @@ def scheme_rules(ctx):
     schemes.thread_block_list_rules(ctx)
     schemes.epoch_rules(ctx)
     schemes.epoch_adopt_resync(ctx)
+    schemes.new_block_init_before_link(ctx)
     schemes.qsbr_rules(ctx)
     schemes.stamp_rules(ctx)
     schemes.lfrc_rules(ctx)
@@ -312,8 +313,9 @@ def C15(ctx):
     markedptr.rules(ctx)
     typestate.rules(ctx)
     typestate.emptiness_predicates(ctx)
-    ctx.only = ("K1.", "K7.", "K3.", "K13.", "HE.shared-slot", "HE.era-stable")
+    ctx.only = ("K1.", "K7.", "K3.", "K13.", "HE.shared-slot", "HE.era-stable", "GUARD.acquire-snapshot")
     schemes.hazard_eras_rules(ctx)
+    schemes.acquire_snapshot_whole_value(ctx)
     return ("Decides: marked_ptr round trip bit by bit for every mark width 1..32 and three upper/lower splits (abstract interpretation of the -O1 IR), "
             "concurrent_ptr order pass-through (frozen as param:order in the contract table); guard_ptr typestate for all six schemes and all special members, "
             "acquire, acquire_if_equal, reset, reclaim by path-sensitive abstract interpretation with symbolic nullness (protection units taken == change "
